@@ -63,11 +63,15 @@ CONSTANTS
   Transactional,   \* FALSE: SqliteWorkflowStore.store_stage ; TRUE: AtomicTransaction.store_stage in `with store.transaction()`
   UsePhase,        \* TRUE: the writer passes expected_phase = the status it read (phase-aware CAS)
   Retries,         \* retry_on_concurrency_error: re-runs after a ConcurrencyError (0 = the bare operation)
+  AddsCtx,         \* writers that add a context key of their own (all of them, except in the Guarded pair)
   AddsOut,         \* writers that also add an outputs key of their own
   SetsStatus,      \* writers that also change the stage status
   SetsTask,        \* writers that also change the status of task "t1"
   AddsTask,        \* writers that also append a new task (upsert_task takes its INSERT path)
   AuxStage,        \* transactional only: each writer first saves a private stage row a<w> in the SAME transaction
+  Guarded,         \* TRUE: the writers are the CancelStage (4) and CompleteTask (3) handlers, whose modification - and
+                   \* whether they save at all - depends on what they read (see Skip / Modify)
+  InitStatus,      \* initial status of the stage row and of task t1
   AllowBusy,       \* a writer blocked at its first DML may time out ('database is locked') instead of waiting
   StageVersionCheck,   \* `AND version = :version` of the stage UPDATE
   TaskVersionCheck,    \* `AND version = :version` of the task UPDATE
@@ -102,8 +106,8 @@ Sorted(S) == IF S = {} THEN <<>>                       \* ORDER BY id
              ELSE LET m == CHOOSE x \in S : \A y \in S : Rank(x) <= Rank(y)
                   IN  <<m>> \o Sorted(S \ {m})
 
-InitDb == [st |-> [status |-> "NOT_STARTED", ver |-> 0, ctx |-> {"k1"}, out |-> {}],
-           tk |-> ("t1" :> [status |-> "NOT_STARTED", ver |-> 0]),
+InitDb == [st |-> [status |-> InitStatus, ver |-> 0, ctx |-> {"k1"}, out |-> {}],
+           tk |-> ("t1" :> [status |-> InitStatus, ver |-> 0]),
            aux |-> [w \in Writers |-> [ver |-> 0, ctx |-> {"k1"}]]]
 
 NoObj  == [st |-> InitDb.st, tk |-> InitDb.tk, order |-> <<>>]
@@ -114,10 +118,19 @@ SavePcDml == IF UseAux THEN "ua" ELSE "us"        \* first DML of the save (take
 
 (* The caller's modification of the object it read: a context key of its own, optionally an     *)
 (* outputs key, the stage status, the status of t1, a new task appended to stage.tasks.          *)
+(* Guarded pair (handlers/cancel_stage.py, handlers/complete_task.py): what the handler does depends on *)
+(* the state it read.  CancelStage (writer 4): nothing if the stage is complete, else stage := CANCELED  *)
+(* and every NOT_STARTED / RUNNING task := CANCELED.  CompleteTask (writer 3): nothing unless t1 is     *)
+(* RUNNING, else t1 := SUCCEEDED.  "Nothing" = the handler returns without saving (Skip).               *)
+Complete == {"SUCCEEDED", "CANCELED", "TERMINAL", "SKIPPED", "STOPPED", "FAILED_CONTINUE"}
+Skip(w, o) == Guarded /\ IF w = 4 THEN o.st.status \in Complete ELSE o.tk["t1"].status # "RUNNING"
+TaskGuard(w, o) == ~Guarded \/ (IF w = 4 THEN o.tk["t1"].status \in {"NOT_STARTED", "RUNNING"} ELSE TRUE)
+
 Modify(w, o) ==
-  LET st1 == [o.st EXCEPT !.ctx = @ \cup {CtxKey(w)}, !.out = IF w \in AddsOut THEN @ \cup {OutKey(w)} ELSE @,
+  LET st1 == [o.st EXCEPT !.ctx = IF w \in AddsCtx THEN @ \cup {CtxKey(w)} ELSE @,
+                          !.out = IF w \in AddsOut THEN @ \cup {OutKey(w)} ELSE @,
                           !.status = IF w \in SetsStatus THEN StatusOf(w) ELSE @]
-      tk1 == IF w \in SetsTask THEN [o.tk EXCEPT !["t1"].status = TStatusOf(w)] ELSE o.tk
+      tk1 == IF w \in SetsTask /\ TaskGuard(w, o) THEN [o.tk EXCEPT !["t1"].status = TStatusOf(w)] ELSE o.tk
       add == w \in AddsTask /\ NewTask(w) \notin DOMAIN o.tk
       tk2 == IF add THEN tk1 @@ (NewTask(w) :> [status |-> "NOT_STARTED", ver |-> 0]) ELSE tk1
   IN  [st |-> st1, tk |-> tk2, order |-> IF add THEN Append(o.order, NewTask(w)) ELSE o.order]
@@ -129,7 +142,7 @@ Init ==
   /\ db = InitDb /\ work = InitDb /\ lock = 0
   /\ wr = [w \in Writers |->
              [pc |-> FirstPc, obj |-> NoObj, aobj |-> [ver |-> 0, ctx |-> {}], phase |-> "", todo |-> <<>>, saved |-> <<>>, base |-> 0,
-              att |-> 1, res |-> "none", exc |-> "", readAt |-> 0, failAt |-> 0]]
+              att |-> 1, res |-> "none", exc |-> "", readAt |-> 0, failAt |-> 0, skipped |-> FALSE]]
   /\ hist = <<>> /\ phantom = {} /\ nco = 0
   /\ lbl = [w |-> 0, a |-> "init", r |-> ""]
 
@@ -153,8 +166,11 @@ RdTasks(w) ==
   /\ wr[w].pc = "rt"
   /\ LET read == [st |-> wr[w].obj.st, tk |-> View(w).tk, order |-> Sorted(DOMAIN View(w).tk)]
          o    == Modify(w, read)
-     IN  wr' = [wr EXCEPT ![w].pc = SavePc, ![w].obj = o, ![w].phase = read.st.status]
-  /\ Lbl(w, "rt", "")
+     IN  IF Skip(w, read)
+         THEN /\ wr' = [wr EXCEPT ![w].pc = "done", ![w].obj = read, ![w].res = "ok", ![w].skipped = TRUE]
+              /\ Lbl(w, "rt", "skip")
+         ELSE /\ wr' = [wr EXCEPT ![w].pc = SavePc, ![w].obj = o, ![w].phase = read.st.status]
+              /\ Lbl(w, "rt", "")
   /\ UNCHANGED <<db, work, lock, hist, phantom, nco>>
 
 (* ---------------- store_stage ---------------- *)
@@ -332,7 +348,7 @@ VersionChain == \A i \in DOMAIN hist : hist[i].base = i - 1
 (* time-outs are allowed, 'database is locked'); success is never reported for a save that lost.   *)
 LoserSeesError ==
   \A w \in Writers : wr[w].pc = "done" =>
-     /\ (wr[w].res = "ok") <=> (\E i \in DOMAIN hist : hist[i].w = w)
+     /\ (wr[w].res = "ok") <=> (wr[w].skipped \/ \E i \in DOMAIN hist : hist[i].w = w)
      /\ wr[w].res \in {"ok", "CE"} \cup (IF AllowBusy THEN {"locked"} ELSE {})
 
 (* No failed save ever becomes durable (half-applied plain store_stage published by a later commit). *)
@@ -354,8 +370,15 @@ VersionsRestored ==
 RetryWins ==
   (AllDone /\ ~AllowBusy /\ Retries >= Cardinality(Writers) - 1) =>
      /\ \A w \in Writers : wr[w].res = "ok"
-     /\ db.st.ctx = {"k1"} \cup {CtxKey(w) : w \in Writers}
+     /\ db.st.ctx = {"k1"} \cup {CtxKey(w) : w \in AddsCtx}
 
 (* Exactly one writer wins when nobody retries and all read the same version first. *)
 SomeoneWins == AllDone /\ ~AllowBusy => Len(hist) >= 1
+
+(* Guarded pair: whichever way the race goes, the stage ends CANCELED, and the task ends SUCCEEDED exactly *)
+(* if its completion was saved (then never overwritten by the cancel) and CANCELED otherwise.             *)
+CancelVsComplete ==
+  (Guarded /\ AllDone /\ ~AllowBusy /\ Retries >= 1) =>
+     /\ db.st.status = "CANCELED"
+     /\ db.tk["t1"].status = IF \E i \in DOMAIN hist : hist[i].w = 3 THEN "SUCCEEDED" ELSE "CANCELED"
 =============================================================================
